@@ -41,6 +41,10 @@ Act(e) == CASE e.op = "connect"  -> ConnectOp(e.pre, e.post, e.ty)
             [] e.op = "stim"     -> Stim(e.row)
             [] e.op = "trainw"   -> TrainW(e.x, e.ev, e.each)
             [] e.op = "deltrain" -> IF tr = <<>> /\ Exists(e.ev) THEN UNCHANGED nvars ELSE DelTrainE(e.ev)
+            \* copy_node_property_to_edges("v"): every synapse gets the value of its pre and of its post compartment (v = row + 1)
+            [] e.op = "copyprop" -> /\ UNCHANGED nvars
+                                    /\ e.prev = [i \in DOMAIN edges |-> edges[i].pre + 1]
+                                    /\ e.postv = [i \in DOMAIN edges |-> edges[i].post + 1]
 \* a key set through a node selection that holds no synapse of that type: the code either refuses (no such column in the view)
 \* or accepts without effect (the column exists for other synapses of the view); both are admissible, nothing may change
 NoTarget(e) == e.op \in {"setw", "sets"} /\ e.ev.kind = "rows" /\ ViewEdges(e.ev) = {}
